@@ -452,6 +452,8 @@ pub fn run(o: &Opts) -> i32 {
             for i in 0..200 { gen.push(unit(&format!("fan{}", i), &format!("chain{} chain{} / chain{}", 1 + rng.below(299), 1 + rng.below(299), 1 + rng.below(299)))); }
             // a chain whose alphabetically first name depends on all the others (the dependency sort enters it from the dependent end)
             for i in 0..400 { gen.push(unit(&format!("link{:03}", i), &if i == 399 { "5 b0".to_string() } else { format!("2 link{:03}", i + 1) })); }
+            // references to a base unit by its long name, from names sorting before and after the base unit's own
+            gen.push(unit("abc0", "3 base0")); gen.push(unit("zbc0", "4 base0 abc0")); gen.push(unit("abd0", "7 kilobase0s"));
             gen.push(DefEntry { name: "kilo".into(), def: Rc::new(Def::Prefix { expr: ExprString(rink_core::ast::Expr::new_const(rink_core::types::Numeric::from(1000))), is_long: true }), doc: None, category: None });
             gen.push(unit("usesprefix", "kilochain7 + 1 chain8"));
             // names that can be read in more than one way: overlapping prefixes (`d` + `am` / `da` + `m`),
